@@ -81,6 +81,28 @@ func c04Sessions(tier string) [][]string {
 		[]string{"func mkc(n){cn=n; [()=>{cn=cn+1; cn}]}", "q1=mkc(a); q1[0]()", "q2=mkc(a); q2[0]()", "q1[0]()", "q2[0]()"},
 		[]string{"func mkm(n){cn=n; {\"inc\": ()=>{cn=cn+1; cn}}}", "q1=mkm(a); q1.inc()", "q2=mkm(a); q2.inc()", "q1.inc()"},
 		[]string{"func mkn(n){cn=n; [[()=>{cn=cn+2; cn}], 0]}", "q1=mkn(a)[0][0]; q1()", "q2=mkn(a)[0][0]; q2()", "q1()"},
+		// a function that reads or writes its caller's loop variable (which lives in a register) depends on outer state
+		[]string{"func lv(){println(\"lv\"); i}", "for i = 3 {println(lv())}", "for i = 2 {println(lv())}"},
+		[]string{"func lw(){i = i + 10; i}", "for i = 3 {println(lw()); println(i)}"},
+		[]string{"func lf(){g = func(){println(\"g\"); i}; for i = 3 {println(g())}}", "lf()", "lf()"},
+		[]string{"func lp(n){g = func(){m + n}; for m = 3 {println(g())}}", "lp(a)", "lp(a)"},
+		[]string{"jj = 7; func lk(){println(\"lk\"); jj}", "func lh(n){for jj = 2 {println(lk())}}", "lh(a)", "lk()", "lh(a)"},
+		// a name that was unbound at the first call and is bound in an enclosing environment at the second one
+		[]string{"func na(){zq = 1}", "na()", "zq = 5", "na()", "zq"},
+		[]string{"func nb(n){for i = n {}; 0}", "nb(2)", "for i = 3 {nb(2); println(i)}"},
+		[]string{"func nc(n){i = n; i}", "nc(5)", "for i = 3 {println(nc(5), i)}"},
+		[]string{"func nd(){g = func(){i = 7; 0}; g(); for i = 3 {g(); println(i)}}", "nd()"},
+		[]string{"func ne(X){X + 1}", "println(ne(1))", "X = 2", "println(catch(ne(1)))"},
+		// "identifier not found" from ++ / index assignment, caught: depends on the name being unbound
+		[]string{"func nf(){catch(i++).err}", "println(nf())", "i = 0", "println(nf())", "i"},
+		[]string{"func ng(){catch(w[0] = 1).err}", "println(ng())", "w = [0]", "println(ng())", "w"},
+		[]string{"func nh(){catch(--i).err}", "println(nh())", "for i = 2 {println(nh(), i)}"},
+		// a variadic call whose last argument is an array: the key is the arguments as passed
+		[]string{"func vf(..){..}", "println(vf([[5]]))", "println(vf([5]))", "println(vf([[5]]))"},
+		[]string{"func vg(u, ..){println(\"vg\"); [u, ..]}", "vg(a, [b])", "vg(a, b)", "vg(a, [[b]])", "vg(a, [b])"},
+		// a function redefined inside a call that goes on calling; recursion with a shadowed callee
+		[]string{"func dh(){1}; func dk(){0}", "func da(){v = dh(); dh = () => 2; dk(); v}", "println(da())", "println(da())"},
+		[]string{"func eh(){1}", "func ef(u){if u == 0 {return eh()}; eh := () => 2; ef(0)}", "println(ef(0))", "println(ef(1))"},
 	)
 	return out
 }
